@@ -390,6 +390,11 @@ def _traj(ctx, prog):
                 ctx.undecidable("C20.2", e, f"{which} marker ({m}): starred "
                                 f"coordinates are not a known list")
                 continue
+            # (np.asarray(positions) is the same array)
+            flat = [x.map(lambda z: z.args[1][0] if (
+                is_call_to(z, "numpy.asarray", "numpy.array") and
+                len(z.args[1]) == 1 and not z.args[2] and
+                z.args[1][0] is pos) else None) for x in flat]
             ok = flat[:len(shown)] == [tm.sub(p, const(i)) for i in shown]
             ctx.ob("C20.2", e, ok,
                    f"{which} marker ({m}) at the {which} position's "
@@ -844,6 +849,11 @@ def _segments(ctx, prog):
            "correspondence edges: trajectory 1 at even rows, trajectory 2 "
            "at odd rows, one segment per pose pair (step=2)" if ok else
            "correspondence edges: interleaving / step deviate",
+           # evidence: the even/odd row stores are there but cross the
+           # trajectories or use another step; any other construction of
+           # the interleaved array (hstack + reshape ...) is not read
+           evidence=bool(cl) and cl[0].data["bound"].get("xyz") is not None
+           and cl[0].data["bound"]["xyz"].op == "upd",
            key="C20.3:correspondence")
 
 
@@ -1537,11 +1547,13 @@ def _formatter(ctx, prog):
                 if is_call_to(t, "builtins.isinstance"):
                     return True
                 return None
-            r = Interp(prog, assume=assume, inline=_helpers).run(
+            r = Interp(prog, assume=assume, inline=lambda fn: _helpers(fn)
+                       or fn.qualname == PL + "plot_mode_to_idx").run(
                 g, {"length_unit": tm.enum(uq, unit),
                     "plot_mode": tm.enum(pmq, mode)})
             fm = [e for e in r.of_kind("call")
-                  if e.data.get("name") == ".set_major_formatter"]
+                  if e.data.get("name") == ".set_major_formatter"
+                  and not tm.is_const(e.live, False)]
             axes = sorted({e.data["recv"].args[1] for e in fm
                            if e.data.get("recv") is not None and
                            e.data["recv"].op == "attr"})
